@@ -1,6 +1,6 @@
 (* C11 over whole conversions: on parsed (validated) units with an ordinary file path, no converter of the model reaches a Panic outcome. *)
 From QV Require Import Model.Base Generated.Tables Model.Quote Model.Unquote Model.Split Model.PortRange Model.Unit Model.Lex Model.Parser
-  Model.Path Model.Names Model.Convert Model.Process Spec.Passthrough Spec.Spelling Proofs.Util Proofs.C15 Proofs.C04 Proofs.C07 Proofs.C11 Proofs.C07run.
+  Model.Path Model.Names Model.Convert Model.Process Spec.Passthrough Spec.Spelling Proofs.Util Proofs.C15 Proofs.C04 Proofs.C07 Proofs.C08 Proofs.C11 Proofs.C07run.
 Open Scope N_scope.
 
 Definition np {E A} (r : res E A) : Prop := r <> CPanic.
@@ -508,4 +508,199 @@ Proof.
     apply np_one_shot. eapply VS_add_raw_exec; [|exact H1]. apply VS_add_U.
     apply VS_of_validated, validated_rename_own. eapply prologue_valid. exact Hp.
 Qed.
+
+Lemma np_volume_name st : file_stem path = Some st -> np (volume_name u path).
+Proof. intros Hst. unfold volume_name. apply np_bind; [npt|]. intros vn _. destruct vn as [[|c s]|]; try apply np_ok; eapply np_default_resource_name; exact Hst. Qed.
+
+Theorem volume_no_panic tbl f st : file_name path = Some f -> file_stem path = Some st -> np (from_volume podman u path tbl).
+Proof.
+  intros Hf Hst. unfold from_volume. apply np_bind; [eapply np_prologue; exact Hf|]. intros [i svc0] Hp.
+  apply np_lift. cbv zeta. apply np_bind; [eapply np_volume_name; exact Hst|]. intros name _. rewrite Hf. apply np_with_tbl.
+  apply np_bind; [|intros; apply np_ok].
+  pose proof (VS_of_validated _ (validated_rename_own _ TVolume (prologue_valid _ _ _ _ _ Hp))) as V0.
+  unfold volume_body. cbv zeta. apply np_bind; [npt|]. intros base _. apply np_bind; [npt|]. intros drv _.
+  apply np_bind; [npt|]. intros [a1 svc1] H1. apply np_bind; [npt|]. intros svc2 H2.
+  apply np_one_shot. eapply VS_add_raw_exec; [|exact H2].
+  revert H1. destruct (str_eqb _ _).
+  - bel. intros img _. destruct img as [im|]; [|discriminate]. bel. intros [iname svcx] Hx. intros H. injection H as _ <-.
+    eapply VS_Ext; [eapply Ext_image_source; [exact incl_base_base|exact Hx]|]. apply VS_add_U. exact V0.
+  - bel. intros usr _. bel. intros grp _. bel. intros dev _.
+    destruct (match dev with Some (c :: s) => _ | _ => _ end) as [a2 dv]. bel. intros ty _. bel. intros a3 _. bel. intros mo _. bel. intros op _.
+    intros H. injection H as _ <-. apply VS_add_U. exact V0.
+Qed.
+
+Theorem pod_no_panic tbl f st : file_name path = Some f -> file_stem path = Some st -> np (from_pod podman mount_nl u path tbl).
+Proof.
+  intros Hf Hst. unfold from_pod. cbv zeta. apply np_bind; [eapply np_prologue; exact Hf|]. intros [i svc0] Hp.
+  apply np_lift. apply np_bind; [npt|]. intros pn _.
+  apply np_bind; [destruct pn as [[|c s]|]; try apply np_ok; eapply np_default_resource_name; exact Hst|]. intros name _. npt.
+Qed.
+
+Lemma VS_hswd up svc t c svc' : NZ up -> VS svc -> handle_set_working_directory u up svc t = COk (c, svc') -> VS svc'.
+Proof.
+  intros Hup Hs. unfold handle_set_working_directory. cbv zeta. bel. intros swd Hswd.
+  destruct swd as [[|c0 w]|]; try (intros H; injection H as _ <-; exact Hs).
+  bel. intros [ctx rel] Hrel. destruct rel as [|r0 rel]; [intros H; injection H as _ <-; exact Hs|].
+  destruct (is_url ctx); [intros H; injection H as _ <-; exact Hs|].
+  bel. intros wd _.
+  assert (Hr : NZ (r0 :: rel)).
+  { (* rel is the unit's path, or a value of the unit (Yaml= / File= / SetWorkingDirectory=) *)
+    assert (Hval : forall k v, @lk berr u (type_section t) k = COk (Some v) -> NZ v).
+    { intros k v Hk. apply lk_some_inv in Hk. destruct Hk as [raw [_ Hq]]. eapply unquoted_values_have_no_nul. exact Hq. }
+    pose proof (Hval _ _ Hswd) as Hw. revert Hrel.
+    destruct (str_eqb (to_lower (c0 :: w)) (s2l "yaml")).
+    - destruct t; try discriminate. bel. intros y Hy. destruct y as [y|]; [|discriminate]. intros H. injection H as _ <-. eapply Hval. exact Hy.
+    - destruct (str_eqb (to_lower (c0 :: w)) (s2l "file")).
+      + destruct t; try discriminate. bel. intros fl Hfl. destruct fl as [fl|]; [|discriminate]. intros H. injection H as _ <-. eapply Hval. exact Hfl.
+      + destruct (str_eqb (to_lower (c0 :: w)) (s2l "unit")); [intros H; injection H as _ <-; exact Hup|].
+        destruct t; try discriminate. destruct (is_absolute (c0 :: w)); intros H; [discriminate H|]. injection H as _ <-. exact Hup. }
+  assert (G : forall fpath, abs_from_unit (r0 :: rel) up = COk fpath -> NZ (match parent fpath with Some d => d | None => fpath end)).
+  { intros fpath Hf. unfold abs_from_unit in Hf. destruct (absolute_from_unit (r0 :: rel) up) as [a|] eqn:Ea; [|discriminate]. injection Hf as <-.
+    pose proof (absolute_from_unit_NZ _ _ _ Hr Hup Ea) as Ha. destruct (parent a) as [d|] eqn:Ed; [eapply parent_NZ; eassumption|exact Ha]. }
+  destruct wd as [[|w0 wd]|].
+  1,3: bel; intros fpath Hfp H; injection H as _ <-; apply VS_add_S; [apply G; exact Hfp|exact Hs].
+  intros H; injection H as _ <-; exact Hs.
+Qed.
+
+Theorem kube_no_panic tbl f : file_name path = Some f -> np (from_kube podman kill_fixed u path tbl).
+Proof.
+  intros Hf. unfold from_kube. cbv zeta. apply np_bind; [eapply np_prologue; exact Hf|]. intros [i svc0] Hp.
+  pose proof (VS_of_validated _ (validated_rename_own _ TKube (prologue_valid _ _ _ _ _ Hp))) as V0.
+  apply np_lift. apply np_bind; [npt|]. intros y _. destruct y as [[|c s]|]; try apply np_err.
+  apply np_bind; [npt|]. intros yaml _.
+  apply np_bind; [destruct kill_fixed; npt|]. intros svc1 H1.
+  assert (V1 : VS svc1).
+  { destruct kill_fixed.
+    - revert H1. bel. intros km _. destruct km as [k|].
+      + destruct (_ || _); [|discriminate]. intros H. injection H as <-. exact V0.
+      + intros H. injection H as <-. apply VS_set; [nz|exact V0].
+    - injection H1 as <-. apply VS_set; [nz|exact V0]. }
+  assert (V2 : VS (unit_add (unit_add svc1 SEC_S (s2l "Environment") (s2l "PODMAN_SYSTEMD_UNIT=%n")) SEC_U (s2l "RequiresMountsFor") (s2l "%t/containers")))
+    by (apply VS_add_U, VS_add_S; [nz|exact V1]).
+  npt.
+Qed.
+
+Theorem build_no_panic tbl f : file_name path = Some f -> np (from_build podman mount_nl u path tbl).
+Proof.
+  intros Hf. unfold from_build. rewrite Hf. destruct (tbl_get tbl f); [|apply np_err]. destruct (i_resource_name i); [apply np_err|]. cbv zeta.
+  apply np_bind; [npt|]. intros q1 _. apply np_bind; [npt|]. intros q2 _. apply np_bind; [npt|]. intros q3 _. apply np_bind; [npt|]. intros q4 _.
+  apply np_lift.
+  assert (V0 : VS (rename_own (build_svc0 u path) TBuild)).
+  { apply VS_of_validated, validated_rename_own. unfold build_svc0. cbv zeta.
+    assert (Vd : Validated (unit_add (default_dependencies (merge_from [] u)) SEC_U (s2l "RequiresMountsFor") (s2l "%t/containers"))).
+    { apply validated_unit_add; [nz|]. apply validated_default_dependencies. apply merged_units_validated; [constructor|exact Hu]. }
+    destruct path; [exact Vd|]. apply validated_unit_add; [exact Hpath|exact Vd]. }
+  fold (build_svc0 u path).
+  apply np_bind; [npt|]. intros base _. apply np_bind; [npt|]. intros pull _. apply np_bind; [npt|]. intros a1 _. apply np_bind; [npt|]. intros a2 _.
+  apply np_bind; [npt|]. intros [a3 svc3] H3. apply np_bind; [npt|]. intros [a4 svc4] H4. apply np_bind; [npt|]. intros [ctx svc5] H5.
+  assert (V5 : VS svc5).
+  { eapply VS_hswd; [exact Hpath| |exact H5].
+    eapply VS_Ext; [eapply Ext_handle_volumes; [exact incl_base_base|exact H4]|].
+    eapply VS_Ext; [eapply Ext_handle_networks; [exact incl_base_base|exact H3]|exact V0]. }
+  apply np_bind; [npt|]. intros wd _. apply np_bind; [npt|]. intros fp _. apply np_bind; [npt|]. intros [wdir fpath] _.
+  apply np_bind; [npt|]. intros a5 _. apply np_bind; [npt|]. intros svc6 H6.
+  apply np_bind; [apply np_one_shot; eapply VS_add_raw_exec; [exact V5|exact H6]|]. intros svc7 _. apply np_ok.
+Qed.
+
+(* every converter, on every validated unit with an ordinary path: never a Panic outcome *)
+Theorem convert_no_panic t tbl f st : file_name path = Some f -> file_stem path = Some st ->
+  np (convert_one podman exists_path kill_fixed mount_nl u path t tbl).
+Proof.
+  intros Hf Hst. destruct t; cbn [convert_one].
+  - eapply build_no_panic; exact Hf.
+  - eapply container_no_panic; exact Hf.
+  - eapply image_no_panic; exact Hf.
+  - eapply kube_no_panic; exact Hf.
+  - eapply network_no_panic; eassumption.
+  - eapply pod_no_panic; eassumption.
+  - eapply volume_no_panic; eassumption.
+Qed.
 End Converters.
+
+(* ---- the whole run ---- *)
+Definition Ordinary (p : str) : Prop := NZ p /\ exists f, file_name p = Some f /\ file_name f = Some f.
+
+Lemma file_stem_of_name p f : file_name p = Some f -> exists st, file_stem p = Some st.
+Proof. intros H. unfold file_stem. rewrite H. cbn [option_map]. eauto. Qed.
+
+Section Loads.
+Variable u : unit.
+Hypothesis Hu : Validated u.
+
+Lemma np_service_name_of {E} path t f : file_name path = Some f -> file_name f = Some f -> np (@service_name_of E u path t).
+Proof.
+  intros Hf Hff. unfold service_name_of. apply np_bind; [npt|]. intros sn _. destruct sn; [apply np_ok|]. rewrite Hf.
+  unfold replace_extension. destruct (file_stem_of_name f f Hff) as [st ->]. apply np_ok.
+Qed.
+
+Lemma np_unit_info path f : file_name path = Some f -> file_name f = Some f -> np (unit_info u path).
+Proof.
+  intros Hf Hff. unfold unit_info. destruct (type_of_path path) as [t|]; [|apply np_err].
+  apply np_bind; [eapply np_service_name_of; eassumption|]. intros sn _. apply np_bind; [|intros; apply np_ok].
+  destruct t; try apply np_ok.
+  - unfold built_image_name. npt.
+  - unfold container_resource_name. apply np_bind; [unfold container_name; npt|]. intros nm _.
+    apply np_bind; [eapply np_service_name_of; eassumption|]. intros; apply np_ok.
+Qed.
+End Loads.
+
+(* unit_info never leaves the modelled domain *)
+Lemma ns_bind {E A B} (m : res E A) (f : A -> res E B) : m <> CSkip -> (forall a, f a <> CSkip) -> bind m f <> CSkip.
+Proof. intros Hm Hf. destruct m as [a|e tb| |]; cbn [bind]; [apply Hf|discriminate|discriminate|exfalso; apply Hm; reflexivity]. Qed.
+Lemma ns_lk {E} u sec k : @lk E u sec k <> CSkip.
+Proof. unfold lk. destruct (lookup_last u sec k) as [[s|]|]; discriminate. Qed.
+Lemma ns_lk_all {E} u sec k : @lk_all E u sec k <> CSkip.
+Proof. unfold lk_all, of_pres. destruct (lookup_all u sec k); discriminate. Qed.
+Lemma ns_service_name_of {E} u path t : @service_name_of E u path t <> CSkip.
+Proof.
+  unfold service_name_of. apply ns_bind; [apply ns_lk|]. intros [n|]; [discriminate|]. destruct (file_name path); [|discriminate].
+  unfold replace_extension. destruct (file_stem l); discriminate.
+Qed.
+Lemma unit_info_no_skip u path : unit_info u path <> CSkip.
+Proof.
+  unfold unit_info. destruct (type_of_path path) as [t|]; [|discriminate]. apply ns_bind; [apply ns_service_name_of|]. intros sn.
+  apply ns_bind; [|discriminate]. destruct t; try discriminate.
+  - unfold built_image_name. apply ns_bind; [apply ns_lk_all|discriminate].
+  - unfold container_resource_name. apply ns_bind; [unfold container_name; apply ns_bind; [apply ns_lk|intros [n|]; discriminate]|]. intros nm.
+    apply ns_bind; [apply ns_service_name_of|discriminate].
+Qed.
+
+Lemma load_one_no_panic path text : Ordinary path -> load_one path text <> LPanic.
+Proof.
+  intros [_ (f & Hf & Hff)]. unfold load_one. destruct (parse_unit text) as [u|] eqn:Ep; [|discriminate].
+  pose proof (np_unit_info u (parsed_units_validated _ _ Ep) path f Hf Hff) as H. unfold np in H.
+  pose proof (unit_info_no_skip u path) as H2. destruct (unit_info u path); try discriminate; congruence.
+Qed.
+
+Section RunNoPanic.
+Variables (podman : str) (exists_path : str -> bool) (kill_fixed mount_nl : bool).
+
+Lemma convert_all_panic_origin l : forall tbl path,
+  In (path, RPanic) (convert_all podman exists_path kill_fixed mount_nl l tbl) ->
+  exists x tbl0, In x l /\ convert_one podman exists_path kill_fixed mount_nl (l_unit x) (l_path x) (i_type (l_info x)) tbl0 = CPanic.
+Proof.
+  induction l as [|x r IH]; intros tbl path; cbn [convert_all]; [intros []|].
+  destruct (convert_one podman exists_path kill_fixed mount_nl (l_unit x) (l_path x) (i_type (l_info x)) tbl) as [[[s1 p1] t1]|e [t1|]| |] eqn:E;
+    cbn [In]; intros [Heq|Hin]; try discriminate Heq;
+    try (destruct (IH _ _ Hin) as (y & a & Hy & Hc); exists y, a; split; [right; exact Hy|exact Hc]).
+  exists x, tbl. split; [left; reflexivity|exact E].
+Qed.
+
+Theorem run_no_panic files : (forall p t, In (p, t) files -> Ordinary p) ->
+  let '(loads, results) := process_files podman exists_path kill_fixed mount_nl files in
+  (forall p, ~ In (p, LPanic) loads) /\ (forall p, ~ In (p, RPanic) results).
+Proof.
+  intros Hord. unfold process_files. cbv zeta. split.
+  - intros p Hin. apply in_map_iff in Hin. destruct Hin as [[p' t] [Heq Hf]]. cbn [fst snd] in Heq. injection Heq as -> Hl.
+    exact (load_one_no_panic p t (Hord _ _ Hf) Hl).
+  - intros p Hin. destruct (convert_all_panic_origin _ _ _ Hin) as (x & tbl0 & Hx & Hc).
+    apply (Permutation.Permutation_in _ (Permutation.Permutation_sym (sort_units_perm _))) in Hx.
+    apply in_flat_map in Hx. destruct Hx as [[pth lr] [Hin2 Hx]]. cbn [snd fst] in Hx.
+    destruct lr as [u i| | |]; try (destruct Hx; fail). destruct Hx as [<-|[]]. cbn [l_path l_unit l_info] in Hc.
+    apply in_map_iff in Hin2. destruct Hin2 as [[pth' text] [Heq Hf]]. cbn [fst snd] in Heq. injection Heq as -> Hl.
+    unfold load_one in Hl. destruct (parse_unit text) as [u'|] eqn:Ep; [|discriminate].
+    destruct (unit_info u' pth) as [i'| | |]; try discriminate. injection Hl as -> ->.
+    destruct (Hord _ _ Hf) as [Hnz (f & Hff & _)]. destruct (file_stem_of_name _ _ Hff) as [st Hst].
+    exact (convert_no_panic podman exists_path kill_fixed mount_nl u (parsed_units_validated _ _ Ep) pth Hnz (i_type i) tbl0 f st Hff Hst Hc).
+Qed.
+End RunNoPanic.
